@@ -6,7 +6,7 @@ from props import qcommon as qc
 
 class Grammar(qc.QGrammar):
     thread_kinds = [("async", 4), ("sync", 3), ("bsync", 3), ("basync", 2), ("aaw", 2), ("baaw", 1), ("await", 4), ("work", 1),
-                    ("suspend", 1), ("resume", 2)]
+                    ("suspend", 1), ("resume", 2), ("retarget", 1), ("noise", 1)]
     body_kinds = [("work", 3), ("async", 3), ("basync", 1), ("suspend", 1), ("resume", 1)]
     max_depth = 2
 
@@ -19,16 +19,42 @@ class Grammar(qc.QGrammar):
         else:
             P.queue(0, 0, qos=[0, 0, 2, 4][h[11] % 4], chain=0)
             P.features.add("custom-serial")
+            if (h[11] >> 2) % 3 == 0:
+                # run-time retargeting of the (legacy) queue under test between the default root, a private concurrent queue, a private serial
+                # queue and a global queue, by thread 0, while the queue is in use; the other queues carry a little traffic of their own
+                P.queue(qc.GQ_UTILITY, 2, qos=2)
+                P.queue(1, 1, -1)
+                P.queue(2, 0, -1, chain=2)
+                P.ret_targets = [1, 2, qc.GQ_UTILITY, 1]
+                P.features.add("retargetable")
 
     def targets(self, P, env):
         return [0]
 
+    def emit_other(self, P, kind, a, b, c, bodies, env):
+        rt = getattr(P, "ret_targets", None)
+        if kind == "retarget":
+            if not rt or env.in_item or env.thread != 0:
+                return None
+            P.features.add("retarget-while-busy")
+            return P.op(env.ctx, "settarget", a=0, b=rt[a % len(rt)], thread=env.thread)
+        if kind == "noise":
+            if not rt or env.in_item:
+                return None
+            q = [1, 2][a % 2]
+            o = P.op(env.ctx, "basync" if q == 1 and b % 3 == 0 else "async", a=q, b=b & 1, q=q, thread=env.thread, depth=env.depth, noise=True)
+            P.op(P.body(o), "work", a=(c % 8) * 25)
+            return o
+        return qc.QGrammar.emit_other(self, P, kind, a, b, c, bodies, env)
+
 
 class Check(E3Check):
     prop = "C02"
+    mc_workers = 3
     rule = ("Hypothesis draws a recipe (16 header bytes + per-thread op tuples + body pool); a deterministic compiler turns it into a sound client "
             "program: 1-4 threads issuing async/sync/barrier_sync/barrier_async/async_and_wait (block and _f forms), awaits, nested asyncs and balanced suspend/resume pairs (from threads and from items) on ONE serial "
-            "queue (custom, or the main queue: drained by workers after dispatch_main(), or kept bound to the main thread and serviced run-loop style through _dispatch_main_queue_callback_4CF), executed by the dvm executor under a harness-owned schedule (SCHED_FIFO on one CPU with "
+            "queue, which in a third of the custom-queue programs is also retargeted at run time (legacy dispatch_set_target_queue by thread 0, between the default root, a private concurrent queue, a private serial queue and a global queue, each with a little traffic of its own). The "
+            "queue is (custom, or the main queue: drained by workers after dispatch_main(), or kept bound to the main thread and serviced run-loop style through _dispatch_main_queue_callback_4CF), executed by the dvm executor under a harness-owned schedule (SCHED_FIFO on one CPU with "
             "seeded yields at the library's atomics; one worker runs multi-core). A case is non-trivial when >= 2 threads submitted, at least one synchronous "
             "submission was called while another item of the queue was pending or running (waiter path) and at least one while none was (fast path); "
             "distinct = distinct program texts (program + perturbation plan).")
@@ -45,15 +71,15 @@ class Check(E3Check):
         vs = qc.crash_or_stuck_verdicts(prog, hist, outcome, rc, output, self.prop)
         if hist is None or outcome == "inconclusive":
             return vs
-        vs += qc.exclusion_verdicts(prog, hist, lambda o: 0, "serial queue exclusion")
-        vs += qc.order_verdicts(prog, hist, lambda o: True, "serial queue order")
+        vs += qc.exclusion_verdicts(prog, hist, lambda o: 0 if o.a == 0 else None, "serial queue exclusion")
+        vs += qc.order_verdicts(prog, hist, lambda o: o.a == 0, "serial queue order")
         if outcome == "completed":
             vs += [v for v in qc.chkfail_verdicts(hist) if v.signature.get("code") in (4, 5)]
         return vs
 
     def nontrivial(self, prog, hist):
         call, ret, start, end, starts, ends = hist.index()
-        items = [(call[o.id], end.get(o.id, 1 << 60), o) for o in prog.order if o.kind in e3.SUBMIT_KINDS and o.id in call]
+        items = [(call[o.id], end.get(o.id, 1 << 60), o) for o in prog.order if o.kind in e3.SUBMIT_KINDS and o.id in call and o.a == 0]
         threads = {o.meta.get("thread") for _, _, o in items}
         busy = idle = 0
         for c, e, o in items:
